@@ -310,6 +310,48 @@ def main():
         if ob["rc2"] == 0 and [p for _, p in mfiles] != ob["provided"]:
             ck.mismatch("model and gopatch disagree on the names files are reported under: model %s, gopatch %s" %
                         ([p for _, p in mfiles], ob["provided"]), rep, "corr:discover (provided paths)")
+    # ---- a file reached under two names (through a directory that is a symbolic link), and a working directory entered through
+    # a symbolic link ($PWD names the link): each regular .go file beneath the requested places is processed exactly once
+    # (repo fix 504c7ca).  Outside the Discover model (which has no symlinked ancestors): judged directly.
+    def run_link(c):
+        nm, args, sub, use_pwd, want = c
+        root = vlib.scratch("link")
+        try:
+            os.makedirs(os.path.join(root, "w", "real", "sub"))
+            for rel in ("real/a.go", "real/sub/x.go", "real/sub/y.go", "top.go"):
+                open(os.path.join(root, "w", rel), "wb").write(GO("p"))
+            os.symlink("real", os.path.join(root, "w", "link"))
+            os.symlink("real/sub", os.path.join(root, "w", "deep"))
+            open(os.path.join(root, "p.patch"), "wb").write(PATCH)
+            cwd = os.path.join(root, "w", sub) if sub else os.path.join(root, "w")
+            env = dict(os.environ, PWD=cwd) if use_pwd else None
+            rc, out, err = vlib.run_gopatch(["-p", os.path.join(root, "p.patch"), "-v"] + [a.replace("<W>", os.path.join(root, "w")) for a in args], cwd, env=env)
+            counts = {rel: open(os.path.join(root, "w", rel), "rb").read().count(b"+ 1") for rel in ("real/a.go", "real/sub/x.go", "real/sub/y.go", "top.go")}
+            return {"rc": rc, "stderr": err.decode("utf-8", "replace")[:500], "stdout": out.decode("utf-8", "replace")[:1500], "counts": counts}
+        finally:
+            shutil.rmtree(root, ignore_errors=True)
+    ALL_REAL = {"real/a.go": 1, "real/sub/x.go": 1, "real/sub/y.go": 1, "top.go": 0}
+    SUB = {"real/a.go": 0, "real/sub/x.go": 1, "real/sub/y.go": 1, "top.go": 0}
+    LINKS = [
+        ("two names for a directory", ["real/sub", "link/sub"], "", False, SUB),
+        ("two names for a file", ["real/sub/x.go", "link/sub/x.go"], "", False, {"real/a.go": 0, "real/sub/x.go": 1, "real/sub/y.go": 0, "top.go": 0}),
+        ("three names for a file", ["deep/x.go", "link/sub/x.go", "<W>/real/sub/x.go"], "", False, {"real/a.go": 0, "real/sub/x.go": 1, "real/sub/y.go": 0, "top.go": 0}),
+        ("a file beneath a symlinked directory", ["link/sub/y.go"], "", False, {"real/a.go": 0, "real/sub/x.go": 0, "real/sub/y.go": 1, "top.go": 0}),
+        ("a directory beneath a symlinked directory", ["link/sub/..."], "", False, SUB),
+        ("the tree and a second name", ["./...", "link/sub"], "", False, {"real/a.go": 1, "real/sub/x.go": 1, "real/sub/y.go": 1, "top.go": 1}),
+        ("working directory entered through a link", ["./..."], "link", True, ALL_REAL),
+        ("working directory entered through a link, '.'", ["."], "link", True, ALL_REAL),
+        ("working directory entered through a link, a file", ["sub/x.go", "./sub"], "link", True, SUB),
+        ("working directory entered through a deeper link", ["."], "deep", True, SUB),
+        ("working directory through a link, PWD not set to it", ["./..."], "link", False, ALL_REAL),
+    ]
+    for c, ob in zip(LINKS, vlib.pmap(run_link, LINKS)):
+        ck.count(("links", c[0])); ck.tally("kind", "symlinked-ancestor")
+        if ob["counts"] != c[4] or ob["rc"] != 0:
+            ck.violation("%s (arguments %s%s): expected each requested file rewritten once %s, got %s (exit %d)"
+                         % (c[0], c[1], ", in " + c[2] if c[2] else "", c[4], ob["counts"], ob["rc"]),
+                         {"case": c[0], "args": c[1], "cwd": c[2] or ".", "PWD_set": c[3], "tree": "w/{top.go, real/{a.go, sub/{x.go, y.go}}, link -> real, deep -> real/sub}",
+                          "expected": c[4], "got": ob["counts"], "stderr": ob["stderr"], "stdout": ob["stdout"]})
     ck.sample({"tree": [p for p, k in all_paths(cases[0]["tree"])], "args": cases[0]["args"], "cwd_name": cases[0]["wname"]})
     ck.sample({"tree": [p + ("/" if k == "d" else "@" if k == "s" else "") for p, k in all_paths(cases[len(fixed) + 1]["tree"])],
                "args": cases[len(fixed) + 1]["args"], "cwd_name": cases[len(fixed) + 1]["wname"]})
